@@ -69,6 +69,8 @@ def frame(variant):
     df["u"] = ["u5", "u2", "u8", "u1", "u7", "u3", "u6", "u4"]  # one observation per level, rows not in level order
     df["i8"] = np.array([100, -7, 25, 3, -120, 64, 9, 11], dtype="int8")
     df["j8"] = np.array([2, 19, -5, 40, 1, -2, 14, 11], dtype="int8")
+    if variant == "large":
+        df = pd.concat([df] * 140, ignore_index=True)
     if variant == "cat":
         df["f"] = pd.Categorical(df["f"], categories=["c", "b", "a"])
         df["g"] = pd.Categorical(df["g"], categories=["g2", "g1"], ordered=True)
@@ -163,9 +165,14 @@ def new_frames(tier):
     return idxs
 
 
+LARGE = ["y ~ f:g", "y ~ f*g", "y ~ 0 + g:bs(x, df=4)", "y ~ x + (0 + f:g | h)", "y ~ C(f, Sum):o + scale(x)", "y ~ poly(x, 2):f + (scale(x) | g)", "y ~ f + (x | g:h)", "y ~ (0 + f | g) + (1 | h)",
+         "y ~ T(f, 'c'):S(g)", "y ~ o:g:x", "y ~ center(x) + g:h:center(x)", "y ~ bs(x, df=5, intercept=True):g + (1 | u)"]
+
+
 def units(tier, seed):
     p = pool(tier)
     cases = [{"formula": f, "variant": v} for f in p for v in ("str", "cat")]
+    cases += [{"formula": f, "variant": "large"} for f in LARGE]  # the same 8 rows 140 times over (1120 training rows)
     step = 4
     return [cases[i : i + step] for i in range(0, len(cases), step)]
 
